@@ -227,8 +227,11 @@ package decoder
 //@ func Decoder.DecodePath(d, ctx, cursor, depth) (paths, c, err)
 //@   props C06 C11 C12 C20
 //@   trusted interface contract (see Decoder.Decode)
-//@   requires ctx != nil && bufOK(ctx.Buf, cursor)
+//@   requires ctx != nil && bufOK(ctx.Buf, cursor) && ctx.Option != nil && ctx.Option.Path != nil
 //@   ensures err == nil ==> cursor <= c && c < len(old(ctx.Buf)) && M(ptrOf(old(ctx.Buf)) + len(old(ctx.Buf)) - 1) == 0
+// evaluation is pure with respect to the path handle: the cursor into the path is restored on EVERY return
+//@   ensures ctx.Buf == old(ctx.Buf) && ctx.Option == old(ctx.Option) && ctx.Option.Path == old(ctx.Option.Path)
+//@   ensures ctx.Option.Path.node == old(ctx.Option.Path.node)
 //@   assigns all
 
 //@ func TakeRuntimeContext() (ctx)
@@ -241,3 +244,60 @@ package decoder
 //@   props C11 C12 C06
 //@   trusted sync.Pool.Put has no effect on modelled state
 //@   assigns nothing
+
+// ---------------------------------------------------------------- path evaluation leaves the Path as it found it (C11, C20)
+//@ func skipValue(buf, cursor, depth) (c, err)
+//@   props C20 C11
+//@   trusted value skipper; body not yet under contract
+//@   requires bufOK(buf, cursor)
+//@   ensures err == nil ==> cursor <= c && c < len(buf)
+//@   assigns nothing
+
+//@ func (*stringDecoder).decodeByte(d, buf, cursor) (res, c, err)
+//@   props C20 C11
+//@   trusted string scanner with in-place unescape; body not yet under contract
+//@   requires d != nil && bufOK(buf, cursor)
+//@   ensures err == nil ==> cursor < c && c < len(buf)
+//@   ensures buf[len(buf)-1] == 0
+//@   assigns M
+
+//@ func (*Path).Field(p, sel) (child, found, err)
+//@   props C20 C11
+//@   trusted dispatches to PathNode.Field implementations (pure look-ups, checked by reading)
+//@   requires p != nil
+//@   assigns nothing
+
+//@ func PathNode.Index(n, idx) (child, found, err)
+//@   props C20 C11
+//@   trusted interface contract: pure look-up
+//@   assigns nothing
+
+//@ func (*mapDecoder).DecodePath(d, ctx, cursor, depth) (paths, c, err)
+//@   props C20 C11 C06
+//@   requires d != nil && ctx != nil && bufOK(ctx.Buf, cursor) && ctx.Option != nil && ctx.Option.Path != nil
+//@   ensures err == nil ==> cursor <= c && c < len(old(ctx.Buf))
+//@   ensures ctx.Buf == old(ctx.Buf) && ctx.Option == old(ctx.Option) && ctx.Option.Path == old(ctx.Option.Path)
+//@   ensures ctx.Option.Path.node == old(ctx.Option.Path.node)
+//@   assigns all
+// the key decoder of a map decoder is never a typed nil (newMapDecoder receives constructed decoders)
+//@   callassume decodeByte: keyDecoder != nil
+//@   loop 1: invariant old(cursor) <= cursor && cursor < len(buf) && buf[len(buf)-1] == 0 && buf == old(ctx.Buf)
+//@   loop 1: invariant ctx.Buf == old(ctx.Buf) && ctx.Option == old(ctx.Option) && ctx.Option.Path == old(ctx.Option.Path) && ctx.Option.Path.node == old(ctx.Option.Path.node)
+
+//@ func (*sliceDecoder).errNumber(d, offset) (e)
+//@   props C20 C11 C06
+//@   requires d != nil
+//@   ensures e != nil
+//@   assigns nothing
+
+//@ func (*sliceDecoder).DecodePath(d, ctx, cursor, depth) (paths, c, err)
+//@   props C20 C11 C06
+//@   requires d != nil && ctx != nil && bufOK(ctx.Buf, cursor) && ctx.Option != nil && ctx.Option.Path != nil && ctx.Option.Path.node != nil
+//@   ensures err == nil ==> cursor <= c && c < len(old(ctx.Buf))
+//@   ensures ctx.Buf == old(ctx.Buf) && ctx.Option == old(ctx.Option) && ctx.Option.Path == old(ctx.Option.Path)
+//@   ensures ctx.Option.Path.node == old(ctx.Option.Path.node)
+//@   assigns all
+//@   loop 1: invariant old(cursor) <= cursor && cursor < len(buf) && buf[len(buf)-1] == 0 && buf == old(ctx.Buf)
+//@   loop 1: invariant ctx.Buf == old(ctx.Buf) && ctx.Option == old(ctx.Option) && ctx.Option.Path == old(ctx.Option.Path) && ctx.Option.Path.node == old(ctx.Option.Path.node)
+//@   loop 2: invariant old(cursor) <= cursor && cursor < len(buf) && buf[len(buf)-1] == 0 && buf == old(ctx.Buf)
+//@   loop 2: invariant ctx.Buf == old(ctx.Buf) && ctx.Option == old(ctx.Option) && ctx.Option.Path == old(ctx.Option.Path) && ctx.Option.Path.node == old(ctx.Option.Path.node)
